@@ -640,6 +640,42 @@ def q3(prog, ctx, members):
     ctx.floor("Q3", "clip shapes x directions", n, 8)
 
 
+def q4(prog, ctx):
+    legacy = ("concat_gapless_blocks", "correct_bam_coords")
+    for name in legacy:
+        prog.func(COMMON, name)           # anchor must exist
+    sites = []
+    for m, q, f in prog.all_functions():
+        for c in calls_in_all(f):
+            cn = (call_name(c) or "").split(".")[-1]
+            if cn in legacy:
+                sites.append((m, q, c, cn))
+    for m, q, c, cn in sites:
+        ctx.fail("Q4", c, q, src(c)[:80], "%s is called from the pipeline: its blocks differ from the SAM exon blocks of get_read_blocks when a deletion "
+                 "is not followed by a match in its segment (e.g. 3D51N9M), and it returns no read-coordinate blocks" % cn)
+    if not sites:
+        ctx.ok("Q4", COMMON, "no call site of %s in the %d modules of the closure" % (" / ".join(legacy), len(prog.modules)))
+    producers = 0
+    for m, q, f in prog.all_functions():
+        for st in walk_no_nested(f):
+            if isinstance(st, ast.Assign) and any(dotted(t) == "self.read_exons" for t in ast.walk(st.targets[0])):
+                v = st.value
+                okv = (isinstance(v, ast.Call) and (call_name(v) or "").split(".")[-1] == "get_read_blocks") or \
+                      (isinstance(v, ast.Subscript) and dotted(v.value) == "self.read_exons")
+                if m.rel == "src/alignment_info.py":
+                    producers += 1
+                    if not okv:
+                        ctx.fail("Q4", st, q, src(st)[:80], "AlignmentInfo.read_exons is assigned from something else than get_read_blocks(...) or a "
+                                 "slice of itself")
+    if producers:
+        ctx.ok("Q4", "src/alignment_info.py", "%d assignments of AlignmentInfo.read_exons: get_read_blocks(...) or a slice of itself" % producers)
+    ctx.floor("Q4", "assignments of AlignmentInfo.read_exons", producers, 3)
+
+
+def calls_in_all(f):
+    return [n for n in ast.walk(f) if isinstance(n, ast.Call)]
+
+
 def run(prog, ctx):
     ctx.rule("Q1", "abstract evaluation of the CIGAR walkers' branch structure for each CigarEvent member and block state: the "
                    "(query, reference) cursor increments equal the SAM consumption table, by the op length; only N and S close a "
@@ -661,6 +697,16 @@ def run(prog, ctx):
     ctx.rule("Q3", "finite case analysis of the start-position block of move_ref_coord_alogn_alignment: for clip shapes {none, S, H, H+S} "
                    "at the walked end, in both directions, the first operation visited is the first non-clip operation")
     q3(prog, ctx, members)
+    ctx.rule("Q5", "the polyA-side and polyT-side helpers of the trimming step (shift_polya / shift_polyt, count_polya_exons / count_polyt_exons) "
+                   "are exact mirror images of each other (typed reflection of C11/X1): the tail position is moved over the removed exons "
+                   "in the same way at both ends of the read")
+    from . import x1_pairs as _x1
+    n5 = _x1.run_function_pairs(prog, ctx, "Q5", {"src/polya_verification.py"}, only={"shift_polya", "PolyAFixer.count_polya_exons"})
+    ctx.floor("Q5", "mirror pairs of the trimming step", n5, 2)
+    ctx.rule("Q4", "who-may-call: the exon lists of the pipeline come from get_read_blocks only; the legacy walkers concat_gapless_blocks / "
+                   "correct_bam_coords (kept for the stand-alone src/10x_profiles.py script, and known to deviate from SAM for a deletion "
+                   "that is not followed by a match in its segment) have no call site in the import closure of isoquant.py")
+    q4(prog, ctx)
     ctx.floor("Q1", "op x state outcomes in get_read_blocks", n1, 18)
     ctx.floor("Q1", "op outcomes in move_ref_coord", n2, 9)
     ctx.extra["exhaustive"] = True
